@@ -902,6 +902,23 @@ func (w *Walker) store(lh ast.Expr, val *Term, st *State, at ast.Node) {
 		if t.K == KField {
 			loc := locOf(t.Name)
 			kind := KillAny
+			if t.Name != loc && strings.Count(t.Name, ".") == 2 {
+				// a field of a struct-valued field ("t.period.d = x"): the struct as a whole changes (its value is no
+				// longer known), the named part gets the value
+				saved := map[string]*Term{}
+				for k, v := range st.FieldVal {
+					if strings.HasPrefix(k, loc+".") && k != t.Name && !v.readsLoc(loc) {
+						saved[k] = v // the struct's other parts keep what they were given
+					}
+				}
+				w.write(loc, kind, nil, nil, st, at)
+				for k, v := range saved {
+					st.FieldVal[k] = v
+				}
+				w.write(t.Name, kind, nil, val, st, at)
+				w.afterScalarWrite(t, val, st)
+				return
+			}
 			w.write(loc, kind, nil, val, st, at)
 			// record scalar facts
 			if t.Name == loc {
@@ -1157,7 +1174,7 @@ func applyKill(st *State, loc string, kind int, idx *Term) {
 	if st.FieldVal != nil {
 		delete(st.FieldVal, loc)
 		for k, v := range st.FieldVal {
-			if v.readsLoc(loc) {
+			if v.readsLoc(loc) || strings.HasPrefix(k, loc+".") {
 				delete(st.FieldVal, k)
 			}
 		}
@@ -1829,6 +1846,27 @@ func (w *Walker) eval(e ast.Expr, st *State) []evalRes {
 			if len(names) == len(elts) {
 				t.Fields = names
 			}
+			if _, isMap := w.info.TypeOf(x).Underlying().(*types.Map); isMap && len(cur) == 1 && len(elts) == len(x.Elts) && len(elts) > 0 && len(elts) <= 16 {
+				var keys []*Term
+				for _, el := range x.Elts {
+					kv, ok := el.(*ast.KeyValueExpr)
+					if !ok {
+						break
+					}
+					tv, ok := w.info.Types[kv.Key]
+					if !ok || tv.Value == nil {
+						break
+					}
+					ks := w.eval(kv.Key, s)
+					if len(ks) != 1 {
+						break
+					}
+					keys = append(keys, ks[0].t)
+				}
+				if len(keys) == len(elts) {
+					t.Keys = keys
+				}
+			}
 			if stt, isStruct := w.info.TypeOf(x).Underlying().(*types.Struct); isStruct && len(cur) == 1 && len(elts) == len(x.Elts) && (len(names) == len(elts) || len(elts) == stt.NumFields() || len(elts) == 0) {
 				t.ST = stt
 			}
@@ -1954,6 +1992,31 @@ func (w *Walker) tableLookup(x *ast.IndexExpr, st *State) ([]tblRes, bool) {
 		return nil, false
 	}
 	bs := w.eval(x.X, st)
+	if len(bs) == 1 && bs[0].t != nil && len(bs[0].t.Keys) > 0 && len(bs[0].t.Keys) == len(bs[0].t.Args) {
+		// a map literal with constant keys at hand (built in place or by an accessor): one branch per entry, plus "no such key"
+		lit := bs[0].t
+		var out []tblRes
+		for _, k := range w.eval(x.Index, bs[0].st) {
+			miss := k.st.clone()
+			missOK := true
+			for i, kt := range lit.Keys {
+				s := k.st.clone()
+				l := Lit{mkAtom("eq", k.t, kt), true}
+				if s.F.add(l) {
+					s.Trail = append(s.Trail, l.String())
+					s.TrailL = append(s.TrailL, l)
+					out = append(out, tblRes{s, lit.Args[i], true})
+				}
+				if !miss.F.add(Lit{mkAtom("eq", k.t, kt), false}) {
+					missOK = false
+				}
+			}
+			if missOK {
+				out = append(out, tblRes{miss, mkTerm(KLocal, "tblmiss:lit"), false})
+			}
+		}
+		return out, true
+	}
 	if len(bs) != 1 || bs[0].t.K != KField {
 		return nil, false
 	}
